@@ -64,6 +64,7 @@ type fctx struct {
 	ghosts   map[string]Term
 	oldEnv   *Env
 	closures map[types.Object]*ast.FuncLit
+	atretApplied map[int]bool // atreturn clauses that applied to at least one return statement (vacuity guard)
 	aliases  map[types.Object]ast.Expr // x := &E : x stands for the location E (E's index variables must stay unchanged)
 	splits   []Term // active case-analysis conditions (obligations are discharged once per case)
 	measure0 []Term // entry value of the function-level decreases measure
@@ -714,6 +715,10 @@ func (x *Exec) execStmt(s ast.Stmt, env *Env, label string) *Env {
 				if (c.Ordinal > 0 && c.Ordinal != ord) || (c.Ordinal == 0 && !success) {
 					continue
 				}
+				if x.cx.atretApplied == nil {
+					x.cx.atretApplied = map[int]bool{}
+				}
+				x.cx.atretApplied[i] = true
 				x.assert(env, "atreturn:"+clauseName(c, i), "", sc.EvalBool(c.Expr))
 			}
 		}
